@@ -3,9 +3,11 @@
 // Contracts for package btree (comment-only; read by /verif/engine, never compiled into the package).
 //
 // Deductive scope: construction, the order-derived fill parameters with the arithmetic lemmas that make split and merge
-// respect the fill bounds (C07), the in-node binary search (C01/C07), and the size observers. The tree-level mutators
-// (insert/split/delete/rebalance), navigation and the iterator are NOT under contract: they are covered by the bounded
-// stand-in /verif/bounded/btree.go.tmpl (labelled bounded, never counted as proved).
+// respect the fill bounds (C07), the in-node binary search (C01/C07), the root split and the slice helpers; and, against a
+// tree-level ghost invariant, every OBSERVER: lookup (Get/GetNode/searchRecursively), navigation (Left/Right/Height), the
+// iterator, Keys/Values, ToJSON, and FromJSON over the assumed contracts of Put/Remove. The tree-level mutators
+// (insert/split/delete/rebalance behind Put and Remove) are NOT verified: their contracts are `trusted` and are covered by the
+// bounded stand-in /verif/bounded/btree.go.tmpl (labelled bounded, never counted as proved).
 
 package btree
 
@@ -18,10 +20,11 @@ package btree
 //@     && (forall i, j :: 0 <= i && i < j && j < len(x.Entries) ==> t.Comparator(x.Entries[i].Key, x.Entries[j].Key) < 0)
 
 //@ func NewWith
-//@   requires comparator != nil
+//@   requires comparator != nil && SWO(comparator, argof(comparator, 0))
 //@   modifies nothing
 //@   panics-iff order < 3
 //@   ensures [C01 C07 C15 C17] fresh(result) && Cfg(result) && result.m == order && result.size == 0 && result.Root == nil && result.Comparator == comparator
+//@   ensures [C01 C02 C07 C15 C17] Inv(result)
 
 //@ func Tree.maxChildren
 //@   requires Cfg(tree)
@@ -95,9 +98,12 @@ package btree
 //@   ensures [C15 C17 C18] result == tree.size
 
 //@ func Tree.Clear
-//@   requires tree != nil
+//@   requires Cfg(tree) && tree.Comparator != nil && SWO(tree.Comparator, argof(tree.Comparator, 0))
 //@   modifies tree.Root, tree.size
+//@   modifies each x like tree.Root where x.tr == tree : x.tr
+//@   at exit: all Node.tr := \x like tree.Root => ite(x.tr == tree, nil, x.tr)
 //@   ensures [C01 C17] tree.Root == nil && tree.size == 0
+//@   ensures [C01 C15 C17] Inv(tree) && tree.Comparator == old(tree.Comparator) && tree.m == old(tree.m)
 
 //@ func setParent
 //@   requires (forall i :: 0 <= i && i < len(nodes) ==> nodes[i] != nil)
@@ -141,12 +147,396 @@ package btree
 //@   requires order >= 3
 //@   modifies nothing
 //@   ensures [C01 C07 C15 C17] fresh(result) && Cfg(result) && result.m == order && result.size == 0 && result.Root == nil && result.Comparator != nil && SWO(result.Comparator, argof(result.Comparator, 0))
+//@   ensures [C01 C02 C07 C15 C17] Inv(result)
 
 //@ -- Entry.String: formats the key; reads only
 //@ func Entry.String
 //@   requires entry != nil
 //@   modifies nothing
 //@   ensures [C17 C18] true
+
+
+// ---- tree-level ghost layer for the observers (C01 lookups, C02, C08, C11, C15, C16, C17, C18). The invariant is intrinsic
+// ---- (local conditions over ghost fields, no reachability, no recursion), as for the binary trees: the in-order
+// ---- sequence of entries is position p -> (node nd[p], index ix[p]); every node knows its owner tree tr, its level above
+// ---- the leaves lvl (so all leaves are at the same depth), the interval [lo,hi] of positions its subtree holds, the
+// ---- position ep[i] of each of its entries and its index ci in its parent's Children. The observers below are VERIFIED
+// ---- against it. That Put and Remove re-establish it is NOT verified (their contracts are `trusted`, backed by the bounded
+// ---- stand-in /verif/bounded/btree.go.tmpl, which checks the ghost-free content of every clause on every history of its scope).
+
+//@ ghost field Tree.nd map like Root
+//@ ghost field Tree.ix map int
+//@ ghost field Tree.rank mapfrom Comparator int
+//@ ghost field Node.tr ptr Tree
+//@ ghost field Node.lvl int
+//@ ghost field Node.lo int
+//@ ghost field Node.hi int
+//@ ghost field Node.ep map int
+//@ ghost field Node.ci int
+
+//@ pred KeyAt(t, p) := t.nd[p].Entries[t.ix[p]].Key
+//@ pred ValAt(t, p) := t.nd[p].Entries[t.ix[p]].Value
+//@ pred NC(t, x) := x.tr == t ==> x != nil && len(x.Entries) >= 1 && x.lvl >= 0 && 0 <= x.lo && x.lo <= x.hi && x.hi < t.size
+//@     && (x.lvl == 0 <==> len(x.Children) == 0) && (x.lvl > 0 ==> len(x.Children) == len(x.Entries) + 1)
+//@     && (forall i :: 0 <= i && i < len(x.Entries) ==> x.Entries[i] != nil && x.lo <= x.ep[i] && x.ep[i] <= x.hi && t.nd[x.ep[i]] == x && t.ix[x.ep[i]] == i)
+//@     && (forall i, j :: 0 <= i && i < j && j < len(x.Entries) ==> x.ep[i] < x.ep[j])
+//@     && (x.lvl == 0 ==> x.hi == x.lo + len(x.Entries) - 1 && (forall i :: 0 <= i && i < len(x.Entries) ==> x.ep[i] == x.lo + i))
+//@     && (forall j :: 0 <= j && j < len(x.Children) ==> x.Children[j] != nil && x.Children[j].tr == t && x.Children[j].Parent == x && x.Children[j].lvl == x.lvl - 1 && x.Children[j].ci == j)
+//@     && (x.lvl > 0 ==> x.Children[0].lo == x.lo && x.Children[len(x.Entries)].hi == x.hi
+//@           && (forall j :: 0 <= j && j < len(x.Entries) ==> x.Children[j].hi + 1 == x.ep[j])
+//@           && (forall j :: 1 <= j && j <= len(x.Entries) ==> x.Children[j].lo == x.ep[j - 1] + 1))
+//@     && (x.Parent == nil ==> x == t.Root && x.lo == 0 && x.hi == t.size - 1)
+//@     && (x.Parent != nil ==> x.Parent.tr == t && 0 <= x.ci && x.ci < len(x.Parent.Children) && x.Parent.Children[x.ci] == x)
+//@ pred ShapeInv(t) := t != nil && t.size >= 0 && (t.size == 0 <==> t.Root == nil) && (t.Root != nil ==> t.Root.tr == t && t.Root.Parent == nil)
+//@     && (forall x like t.Root :: NC(t, x))
+//@     && (forall p :: 0 <= p && p < t.size ==> t.nd[p].tr == t && 0 <= t.ix[p] && t.ix[p] < len(t.nd[p].Entries) && t.nd[p].ep[t.ix[p]] == p)
+//@ pred OrderInv(t) := t.Comparator != nil && SWO(t.Comparator, argof(t.Comparator, 0))
+//@     && (forall p, q :: 0 <= p && p < q && q < t.size ==> t.Comparator(KeyAt(t, p), KeyAt(t, q)) < 0)
+//@     && (forall k like argof(t.Comparator, 0), p :: 0 <= p && p < t.size && t.Comparator(k, KeyAt(t, p)) == 0 ==> t.rank[k] == p)
+//@ -- fill bounds (C07): at most m-1 entries per node, at least ceil(m/2)-1 in every node but the root
+//@ pred FillInv(t) := Cfg(t) && (forall x like t.Root :: x.tr == t ==> len(x.Entries) <= t.m - 1 && (x != t.Root ==> 2 * (len(x.Entries) + 1) >= t.m))
+//@ pred Inv(t) := ShapeInv(t) && OrderInv(t) && FillInv(t)
+//@ pred Has(t, k) := 0 <= t.rank[k] && t.rank[k] < t.size && t.Comparator(k, KeyAt(t, t.rank[k])) == 0
+//@ pred Val(t, k) := ValAt(t, t.rank[k])
+
+//@ -- the entries of a node of a sound tree are non-nil and ascending (what the in-node search needs)
+//@ func Tree.searchRecursively
+//@   requires Inv(tree) && startNode == tree.Root
+//@   modifies nothing
+//@   ensures [C01 C17 C18] hit: found ==> node != nil && node.tr == tree && 0 <= index && index < len(node.Entries) && tree.Comparator(key, node.Entries[index].Key) == 0 && node.ep[index] == tree.rank[key] && Has(tree, key)
+//@   ensures [C01 C17 C18] miss: !found ==> node == nil && index == 0 - 1 && !Has(tree, key)
+//@   loop 1:
+//@     invariant node != nil && node.tr == tree
+//@     invariant forall p :: 0 <= p && p < node.lo ==> tree.Comparator(key, KeyAt(tree, p)) > 0
+//@     invariant forall p :: node.hi < p && p < tree.size ==> tree.Comparator(key, KeyAt(tree, p)) < 0
+//@     decreases node.lvl
+//@   -- the entry left of the insertion index bounds everything up to its position from above, the entry at it from below
+//@   assert after Tree.isLeaf#1: !found && index > 0 ==> tree.Comparator(key, KeyAt(tree, node.ep[index - 1])) > 0
+//@   assert after Tree.isLeaf#1: !found && index > 0 ==> (forall p :: 0 <= p && p <= node.ep[index - 1] ==> tree.Comparator(key, KeyAt(tree, p)) > 0)
+//@   assert after Tree.isLeaf#1: !found && index < len(node.Entries) ==> tree.Comparator(key, KeyAt(tree, node.ep[index])) < 0
+//@   assert after Tree.isLeaf#1: !found && index < len(node.Entries) ==> (forall p :: node.ep[index] <= p && p < tree.size ==> tree.Comparator(key, KeyAt(tree, p)) < 0)
+//@   assert after Tree.isLeaf#1: !found && len(node.Children) == 0 ==> (forall p :: 0 <= p && p < tree.size ==> tree.Comparator(key, KeyAt(tree, p)) != 0)
+
+//@ func Tree.Get
+//@   requires Inv(tree)
+//@   modifies nothing
+//@   ensures [C01 C17 C18] found == Has(tree, key) && (found ==> value == Val(tree, key)) && (!found ==> value == zero(value))
+
+//@ func Tree.GetNode
+//@   requires Inv(tree)
+//@   modifies nothing
+//@   ensures [C01 C17 C18] (result != nil) == Has(tree, key) && (result != nil ==> result == tree.nd[tree.rank[key]] && result.tr == tree)
+
+//@ -- left / right: the leaf holding the first / last position
+//@ func Tree.left
+//@   requires ShapeInv(tree) && node == tree.Root
+//@   modifies nothing
+//@   ensures [C02 C17 C18] (tree.size == 0 ==> result == nil) && (tree.size > 0 ==> result == tree.nd[0] && tree.ix[0] == 0 && result.tr == tree && result.lvl == 0)
+//@   loop 1:
+//@     invariant current != nil && current.tr == tree && current.lo == 0
+//@     decreases current.lvl
+//@   assert exit: tree.size > 0 ==> result != nil && result.tr == tree && result.lvl == 0 && result.lo == 0 && result.ep[0] == 0
+
+//@ func Tree.right
+//@   requires ShapeInv(tree) && node == tree.Root
+//@   modifies nothing
+//@   ensures [C02 C17 C18] (tree.size == 0 ==> result == nil) && (tree.size > 0 ==> result == tree.nd[tree.size - 1] && tree.ix[tree.size - 1] == len(result.Entries) - 1 && result.tr == tree && result.lvl == 0)
+//@   loop 1:
+//@     invariant current != nil && current.tr == tree && current.hi == tree.size - 1
+//@     decreases current.lvl
+//@   assert exit: tree.size > 0 ==> result != nil && result.tr == tree && result.lvl == 0 && result.hi == tree.size - 1 && result.ep[len(result.Entries) - 1] == tree.size - 1
+
+//@ func Tree.Left
+//@   requires ShapeInv(tree)
+//@   modifies nothing
+//@   ensures [C02 C17 C18] (tree.size == 0 ==> result == nil) && (tree.size > 0 ==> result == tree.nd[0] && tree.ix[0] == 0 && result.tr == tree && result.lvl == 0)
+
+//@ func Tree.Right
+//@   requires ShapeInv(tree)
+//@   modifies nothing
+//@   ensures [C02 C17 C18] (tree.size == 0 ==> result == nil) && (tree.size > 0 ==> result == tree.nd[tree.size - 1] && tree.ix[tree.size - 1] == len(result.Entries) - 1 && result.tr == tree && result.lvl == 0)
+
+//@ -- the interface-typed accessors: no panic, no write (the boxed result is opaque to the engine; its value is checked by the bounded stand-in)
+//@ func Tree.LeftKey
+//@   requires ShapeInv(tree)
+//@   modifies nothing
+//@   ensures [C17 C18] true
+//@ func Tree.LeftValue
+//@   requires ShapeInv(tree)
+//@   modifies nothing
+//@   ensures [C17 C18] true
+//@ func Tree.RightKey
+//@   requires ShapeInv(tree)
+//@   modifies nothing
+//@   ensures [C17 C18] true
+//@ func Tree.RightValue
+//@   requires ShapeInv(tree)
+//@   modifies nothing
+//@   ensures [C17 C18] true
+
+//@ -- height: the number of levels (all leaves are at level 0, so every root-to-leaf path has Root.lvl + 1 nodes: C07)
+//@ func Node.height
+//@   requires node != nil ==> node.tr != nil && ShapeInv(node.tr)
+//@   modifies nothing
+//@   ensures [C07 C17 C18] (node == nil ==> result == 0) && (node != nil ==> result == node.lvl + 1)
+//@   loop 1:
+//@     invariant node != nil ==> node0 != nil && node.tr == node0.tr && height + node.lvl == node0.lvl
+//@     invariant node == nil ==> node0 == nil && height == 0
+//@     decreases ite(node != nil, node.lvl + 1, 0)
+
+//@ func Tree.Height
+//@   requires ShapeInv(tree)
+//@   modifies nothing
+//@   ensures [C07 C17 C18] (tree.Root == nil ==> result == 0) && (tree.Root != nil ==> result == tree.Root.lvl + 1)
+
+// ---- iterator: a cursor over positions -1..n of the in-order entry sequence (C08). The iterator remembers (node, entry); its
+// ---- position is the rank of the entry's key. Next/Prev find the entry's index by searching its node for its key, descend
+// ---- to the neighbouring leaf or climb until the parent has a following / preceding entry ----
+
+//@ pred Cur(it) := ite(it.position == 0, 0 - 1, ite(it.position == 2, it.tree.size, it.tree.rank[it.entry.Key]))
+//@ pred ItInv(it) := it != nil && it.tree != nil && Inv(it.tree) && 0 <= it.position && it.position <= 2
+//@     && (it.position == 1 ==> it.node != nil && it.node.tr == it.tree && it.entry != nil && 0 <= it.tree.rank[it.entry.Key] && it.tree.rank[it.entry.Key] < it.tree.size
+//@           && it.tree.nd[it.tree.rank[it.entry.Key]] == it.node && it.node.Entries[it.tree.ix[it.tree.rank[it.entry.Key]]] == it.entry)
+//@     && (it.position != 1 ==> it.node == nil && it.entry == nil)
+
+//@ pred ItPre(it) := it != nil && it.tree != nil && Inv(it.tree)
+
+//@ func Tree.Iterator
+//@   requires Inv(tree)
+//@   modifies nothing
+//@   ensures [C08 C17 C18] fresh(result) && ItInv(result) && result.tree == tree && Cur(result) == 0 - 1
+
+//@ func Iterator.Next
+//@   requires ItInv(iterator)
+//@   modifies iterator.node, iterator.entry, iterator.position
+//@   ensures [C08 C17] ItInv(iterator) && Cur(iterator) == min(old(Cur(iterator)) + 1, iterator.tree.size)
+//@   ensures [C08] result == (0 <= Cur(iterator) && Cur(iterator) < iterator.tree.size)
+//@   loop 1:
+//@     invariant iterator.node != nil && iterator.node.tr == iterator.tree && iterator.node.lo == old(Cur(iterator)) + 1
+//@     invariant iterator.position == 1 && iterator.entry == old(iterator.entry)
+//@     decreases iterator.node.lvl
+//@   loop 2:
+//@     invariant iterator.node != nil && iterator.node.tr == iterator.tree && iterator.node.hi == old(Cur(iterator))
+//@     invariant iterator.position == 1 && iterator.entry == old(iterator.entry)
+//@     decreases iterator.tree.size - (iterator.node.hi - iterator.node.lo)
+//@   -- consequences of the invariant used below: a child's interval lies strictly inside its parent's; an entry's key is the key at its position
+//@   assert entry: forall x like iterator.tree.Root :: x.tr == iterator.tree && x.Parent != nil ==> x.Parent.lvl > 0 && len(x.Parent.Entries) >= 1 && x.Parent.Children[x.ci] == x
+//@   assert entry: forall x like iterator.tree.Root :: x.tr == iterator.tree && x.Parent != nil && x.ci > 0 ==> x.lo == x.Parent.ep[x.ci - 1] + 1 && x.Parent.lo <= x.Parent.ep[x.ci - 1]
+//@   assert entry: forall x like iterator.tree.Root :: x.tr == iterator.tree && x.Parent != nil && x.ci < len(x.Parent.Entries) ==> x.hi + 1 == x.Parent.ep[x.ci] && x.Parent.ep[x.ci] <= x.Parent.hi
+//@   assert entry: forall x like iterator.tree.Root :: x.tr == iterator.tree && x.Parent != nil && x.ci == 0 ==> x.lo == x.Parent.lo
+//@   assert entry: forall x like iterator.tree.Root :: x.tr == iterator.tree && x.Parent != nil && x.ci == len(x.Parent.Entries) ==> x.hi == x.Parent.hi
+//@   assert entry: forall x like iterator.tree.Root :: x.tr == iterator.tree && x.Parent != nil ==> x.Parent.lo <= x.lo && x.hi <= x.Parent.hi && x.hi - x.lo < x.Parent.hi - x.Parent.lo
+//@   assert entry: forall x like iterator.tree.Root, i :: x.tr == iterator.tree && 0 <= i && i < len(x.Entries) ==> KeyAt(iterator.tree, x.ep[i]) == x.Entries[i].Key
+//@   assert entry: iterator.position == 1 ==> iterator.tree.Comparator(iterator.entry.Key, iterator.entry.Key) == 0
+//@   assert entry: forall x like iterator.tree.Root, i, j :: x.tr == iterator.tree && 0 <= i && i < j && j < len(x.Entries) ==> iterator.tree.Comparator(x.Entries[i].Key, x.Entries[j].Key) < 0
+//@   -- the in-node search finds the current entry at its own index
+//@   assert after Tree.search#1: callresult1
+//@   assert after Tree.search#1: iterator.node.ep[callresult0] == old(Cur(iterator))
+//@   assert after Tree.search#1: callresult0 == iterator.tree.ix[old(Cur(iterator))]
+//@   -- climbing: the parent's insertion index for the key is the index of the child we came from
+//@   assert after Tree.search#2: !callresult1
+//@   assert after Tree.search#2: callresult0 < len(iterator.node.Entries) ==> iterator.node.ep[callresult0] == old(Cur(iterator)) + 1
+//@   assert after Tree.search#2: callresult0 >= len(iterator.node.Entries) ==> iterator.node.hi == old(Cur(iterator))
+//@   assert exit: result ==> old(Cur(iterator)) + 1 < iterator.tree.size && iterator.tree.nd[old(Cur(iterator)) + 1] == iterator.node && iterator.node.Entries[iterator.tree.ix[old(Cur(iterator)) + 1]] == iterator.entry
+//@   assert exit: result ==> iterator.tree.Comparator(iterator.entry.Key, KeyAt(iterator.tree, old(Cur(iterator)) + 1)) == 0
+//@   assert exit: result ==> iterator.tree.rank[iterator.entry.Key] == old(Cur(iterator)) + 1
+
+//@ func Iterator.Prev
+//@   requires ItInv(iterator)
+//@   modifies iterator.node, iterator.entry, iterator.position
+//@   ensures [C08 C17] ItInv(iterator) && Cur(iterator) == max(old(Cur(iterator)) - 1, 0 - 1)
+//@   ensures [C08] result == (0 <= Cur(iterator) && Cur(iterator) < iterator.tree.size)
+//@   loop 1:
+//@     invariant iterator.node != nil && iterator.node.tr == iterator.tree && iterator.node.hi == old(Cur(iterator)) - 1
+//@     invariant iterator.position == 1 && iterator.entry == old(iterator.entry)
+//@     decreases iterator.node.lvl
+//@   loop 2:
+//@     invariant iterator.node != nil && iterator.node.tr == iterator.tree && iterator.node.lo == old(Cur(iterator))
+//@     invariant iterator.position == 1 && iterator.entry == old(iterator.entry)
+//@     decreases iterator.tree.size - (iterator.node.hi - iterator.node.lo)
+//@   -- consequences of the invariant used below: a child's interval lies strictly inside its parent's; an entry's key is the key at its position
+//@   assert entry: forall x like iterator.tree.Root :: x.tr == iterator.tree && x.Parent != nil ==> x.Parent.lvl > 0 && len(x.Parent.Entries) >= 1 && x.Parent.Children[x.ci] == x
+//@   assert entry: forall x like iterator.tree.Root :: x.tr == iterator.tree && x.Parent != nil && x.ci > 0 ==> x.lo == x.Parent.ep[x.ci - 1] + 1 && x.Parent.lo <= x.Parent.ep[x.ci - 1]
+//@   assert entry: forall x like iterator.tree.Root :: x.tr == iterator.tree && x.Parent != nil && x.ci < len(x.Parent.Entries) ==> x.hi + 1 == x.Parent.ep[x.ci] && x.Parent.ep[x.ci] <= x.Parent.hi
+//@   assert entry: forall x like iterator.tree.Root :: x.tr == iterator.tree && x.Parent != nil && x.ci == 0 ==> x.lo == x.Parent.lo
+//@   assert entry: forall x like iterator.tree.Root :: x.tr == iterator.tree && x.Parent != nil && x.ci == len(x.Parent.Entries) ==> x.hi == x.Parent.hi
+//@   assert entry: forall x like iterator.tree.Root :: x.tr == iterator.tree && x.Parent != nil ==> x.Parent.lo <= x.lo && x.hi <= x.Parent.hi && x.hi - x.lo < x.Parent.hi - x.Parent.lo
+//@   assert entry: forall x like iterator.tree.Root, i :: x.tr == iterator.tree && 0 <= i && i < len(x.Entries) ==> KeyAt(iterator.tree, x.ep[i]) == x.Entries[i].Key
+//@   assert entry: iterator.position == 1 ==> iterator.tree.Comparator(iterator.entry.Key, iterator.entry.Key) == 0
+//@   assert entry: forall x like iterator.tree.Root, i, j :: x.tr == iterator.tree && 0 <= i && i < j && j < len(x.Entries) ==> iterator.tree.Comparator(x.Entries[i].Key, x.Entries[j].Key) < 0
+//@   -- the in-node search finds the current entry at its own index
+//@   assert after Tree.search#1: callresult1
+//@   assert after Tree.search#1: iterator.node.ep[callresult0] == old(Cur(iterator))
+//@   assert after Tree.search#1: callresult0 == iterator.tree.ix[old(Cur(iterator))]
+//@   assert after Tree.search#2: !callresult1
+//@   assert after Tree.search#2: callresult0 - 1 >= 0 ==> iterator.node.ep[callresult0 - 1] == old(Cur(iterator)) - 1
+//@   assert after Tree.search#2: callresult0 - 1 < 0 ==> iterator.node.lo == old(Cur(iterator))
+//@   assert exit: result ==> 0 <= old(Cur(iterator)) - 1 && iterator.tree.nd[old(Cur(iterator)) - 1] == iterator.node && iterator.node.Entries[iterator.tree.ix[old(Cur(iterator)) - 1]] == iterator.entry
+//@   assert exit: result ==> iterator.tree.Comparator(iterator.entry.Key, KeyAt(iterator.tree, old(Cur(iterator)) - 1)) == 0
+//@   assert exit: result ==> iterator.tree.rank[iterator.entry.Key] == old(Cur(iterator)) - 1
+
+//@ func Iterator.Key
+//@   requires ItInv(iterator) && iterator.position == 1
+//@   modifies nothing
+//@   ensures [C08 C17 C18] result == KeyAt(iterator.tree, Cur(iterator))
+
+//@ func Iterator.Value
+//@   requires ItInv(iterator) && iterator.position == 1
+//@   modifies nothing
+//@   ensures [C08 C17 C18] result == ValAt(iterator.tree, Cur(iterator))
+
+//@ func Iterator.Node
+//@   requires ItInv(iterator)
+//@   modifies nothing
+//@   ensures [C08 C17 C18] result == iterator.node
+
+//@ -- Begin / End are also called by Prev / Next in mid-move, when (node, entry) no longer denote one position
+//@ func Iterator.Begin
+//@   requires ItPre(iterator)
+//@   modifies iterator.node, iterator.entry, iterator.position
+//@   ensures [C08 C17] ItInv(iterator) && Cur(iterator) == 0 - 1
+
+//@ func Iterator.End
+//@   requires ItPre(iterator)
+//@   modifies iterator.node, iterator.entry, iterator.position
+//@   ensures [C08 C17] ItInv(iterator) && Cur(iterator) == iterator.tree.size
+
+//@ func Iterator.First
+//@   requires ItInv(iterator)
+//@   modifies iterator.node, iterator.entry, iterator.position
+//@   ensures [C08 C17] ItInv(iterator) && Cur(iterator) == 0 && result == (iterator.tree.size > 0)
+
+//@ func Iterator.Last
+//@   requires ItInv(iterator)
+//@   modifies iterator.node, iterator.entry, iterator.position
+//@   ensures [C08 C17] ItInv(iterator) && Cur(iterator) == iterator.tree.size - 1 && result == (iterator.tree.size > 0)
+
+//@ func Iterator.NextTo
+//@   requires ItInv(iterator) && f != nil
+//@   modifies iterator.node, iterator.entry, iterator.position
+//@   ensures [C08 C17] ItInv(iterator)
+//@   ensures [C08] found: result ==> old(Cur(iterator)) < Cur(iterator) && Cur(iterator) < iterator.tree.size && f(KeyAt(iterator.tree, Cur(iterator)), ValAt(iterator.tree, Cur(iterator)))
+//@     && (forall j :: old(Cur(iterator)) < j && j < Cur(iterator) ==> !f(KeyAt(iterator.tree, j), ValAt(iterator.tree, j)))
+//@   ensures [C08] notfound: !result ==> Cur(iterator) == iterator.tree.size && (forall j :: old(Cur(iterator)) < j && j < iterator.tree.size ==> !f(KeyAt(iterator.tree, j), ValAt(iterator.tree, j)))
+//@   loop 1:
+//@     invariant ItInv(iterator) && old(Cur(iterator)) <= Cur(iterator)
+//@     invariant forall j :: old(Cur(iterator)) < j && j <= Cur(iterator) && j < iterator.tree.size ==> !f(KeyAt(iterator.tree, j), ValAt(iterator.tree, j))
+//@     decreases iterator.tree.size - Cur(iterator)
+
+//@ func Iterator.PrevTo
+//@   requires ItInv(iterator) && f != nil
+//@   modifies iterator.node, iterator.entry, iterator.position
+//@   ensures [C08 C17] ItInv(iterator)
+//@   ensures [C08] found: result ==> 0 <= Cur(iterator) && Cur(iterator) < old(Cur(iterator)) && f(KeyAt(iterator.tree, Cur(iterator)), ValAt(iterator.tree, Cur(iterator)))
+//@     && (forall j :: Cur(iterator) < j && j < old(Cur(iterator)) ==> !f(KeyAt(iterator.tree, j), ValAt(iterator.tree, j)))
+//@   ensures [C08] notfound: !result ==> Cur(iterator) == 0 - 1 && (forall j :: 0 <= j && j < old(Cur(iterator)) ==> !f(KeyAt(iterator.tree, j), ValAt(iterator.tree, j)))
+//@   loop 1:
+//@     invariant ItInv(iterator) && Cur(iterator) <= old(Cur(iterator))
+//@     invariant forall j :: Cur(iterator) <= j && j < old(Cur(iterator)) && 0 <= j ==> !f(KeyAt(iterator.tree, j), ValAt(iterator.tree, j))
+//@     decreases Cur(iterator) + 1
+
+//@ func Tree.Keys
+//@   requires Inv(tree)
+//@   modifies nothing
+//@   ensures [C01 C02 C15 C16 C17 C18] fresh(arr(result)) && len(result) == tree.size && (forall j :: 0 <= j && j < tree.size ==> result[j] == KeyAt(tree, j))
+//@   loop 1:
+//@     invariant ItInv(it) && fresh(it) && it.tree == tree && Cur(it) == i - 1 && 0 <= i && len(keys) == tree.size && fresh(arr(keys))
+//@     invariant forall j :: 0 <= j && j < i ==> keys[j] == KeyAt(tree, j)
+//@     decreases tree.size - i
+
+//@ func Tree.Values
+//@   requires Inv(tree)
+//@   modifies nothing
+//@   ensures [C01 C02 C15 C16 C17 C18] fresh(arr(result)) && len(result) == tree.size && (forall j :: 0 <= j && j < tree.size ==> result[j] == ValAt(tree, j))
+//@   loop 1:
+//@     invariant ItInv(it) && fresh(it) && it.tree == tree && Cur(it) == i - 1 && 0 <= i && len(values) == tree.size && fresh(arr(values))
+//@     invariant forall j :: 0 <= j && j < i ==> values[j] == ValAt(tree, j)
+//@     decreases tree.size - i
+
+// ---- mutators: ASSUMED contracts (`trusted`): the bodies (insert/split/delete/rebalance: mutually recursive slice surgery) are
+// ---- not verified; the bounded stand-in checks the ghost-free content of every clause (shape, fill bounds, order, agreement
+// ---- with a model map) on every history of its scope. Stated so that the observers' invariant has a provider and FromJSON
+// ---- can be verified ----
+
+//@ func Tree.Put
+//@   trusted
+//@   requires Inv(tree)
+//@   modifies tree.Root, tree.size, tree.nd, tree.ix, tree.rank, elems(*)
+//@   modifies each x like tree.Root where x.tr == tree : x.Entries, x.Children, x.Parent, x.tr, x.lvl, x.lo, x.hi, x.ep, x.ci
+//@   ensures [C01 C02 C07 C17] Inv(tree) && tree.Comparator == old(tree.Comparator) && tree.m == old(tree.m)
+//@   ensures owners: forall x like tree.Root :: fresh(x) ==> x.tr == tree || x.tr == nil
+//@   ensures owners-old: forall x like tree.Root :: !fresh(x) ==> x.tr == old(x.tr) || (old(x.tr) == tree && x.tr == nil)
+//@   ensures [C01 C02] at: Has(tree, key) && Val(tree, key) == value && KeyAt(tree, tree.rank[key]) == key
+//@   ensures [C01 C02] replaced: old(Has(tree, key)) ==> tree.size == old(tree.size) && tree.rank == old(tree.rank)
+//@     && (forall i :: 0 <= i && i < tree.size && i != tree.rank[key] ==> KeyAt(tree, i) == old(KeyAt(tree, i)) && ValAt(tree, i) == old(ValAt(tree, i)))
+//@   ensures [C01 C02] inserted: !old(Has(tree, key)) ==> tree.size == old(tree.size) + 1
+//@     && (forall i :: 0 <= i && i < tree.rank[key] ==> KeyAt(tree, i) == old(KeyAt(tree, i)) && ValAt(tree, i) == old(ValAt(tree, i)))
+//@     && (forall i :: tree.rank[key] < i && i < tree.size ==> KeyAt(tree, i) == old(KeyAt(tree, i-1)) && ValAt(tree, i) == old(ValAt(tree, i-1)))
+//@   ensures [C01] map: forall k like key :: (Has(tree, k) <==> old(Has(tree, k)) || tree.Comparator(k, key) == 0)
+//@     && (tree.Comparator(k, key) == 0 ==> Val(tree, k) == value) && (tree.Comparator(k, key) != 0 && old(Has(tree, k)) ==> Val(tree, k) == old(Val(tree, k)))
+
+//@ func Tree.Remove
+//@   trusted
+//@   requires Inv(tree)
+//@   modifies tree.Root, tree.size, tree.nd, tree.ix, tree.rank, elems(*)
+//@   modifies each x like tree.Root where x.tr == tree : x.Entries, x.Children, x.Parent, x.tr, x.lvl, x.lo, x.hi, x.ep, x.ci
+//@   ensures [C01 C02 C07 C17] Inv(tree) && tree.Comparator == old(tree.Comparator) && tree.m == old(tree.m)
+//@   ensures owners: forall x like tree.Root :: x.tr == old(x.tr) || (old(x.tr) == tree && x.tr == nil)
+//@   ensures [C01 C02] absent: !old(Has(tree, key)) ==> tree.size == old(tree.size) && tree.rank == old(tree.rank)
+//@     && (forall i :: 0 <= i && i < tree.size ==> KeyAt(tree, i) == old(KeyAt(tree, i)) && ValAt(tree, i) == old(ValAt(tree, i)))
+//@   ensures [C01 C02] present: old(Has(tree, key)) ==> tree.size == old(tree.size) - 1
+//@     && (forall i :: 0 <= i && i < old(tree.rank[key]) ==> KeyAt(tree, i) == old(KeyAt(tree, i)) && ValAt(tree, i) == old(ValAt(tree, i)))
+//@     && (forall i :: old(tree.rank[key]) <= i && i < tree.size ==> KeyAt(tree, i) == old(KeyAt(tree, i+1)) && ValAt(tree, i) == old(ValAt(tree, i+1)))
+//@   ensures [C01] map: forall k like key :: (Has(tree, k) <==> old(Has(tree, k)) && tree.Comparator(k, key) != 0) && (Has(tree, k) ==> Val(tree, k) == old(Val(tree, k)))
+
+// ---- JSON (C11 round trip, C12 replace / sound / atomic) ----
+
+//@ func Tree.ToJSON
+//@   requires Inv(tree)
+//@   modifies nothing
+//@   ensures [C11 C17 C18] result1 == nil && fresh(arr(result0)) && jobj_kind(result0, argof(tree.Comparator, 0), tree.Root.Entries[0].Value) == 3 && jobj_card(result0, argof(tree.Comparator, 0), tree.Root.Entries[0].Value) == tree.size
+//@   ensures [C11] content: forall i :: 0 <= i && i < tree.size ==> jobj_has(result0, KeyAt(tree, i), tree.Root.Entries[0].Value) && jobj_val(result0, KeyAt(tree, i), tree.Root.Entries[0].Value) == ValAt(tree, i)
+//@   ensures [C11] only: forall k like argof(tree.Comparator, 0) :: jobj_has(result0, k, tree.Root.Entries[0].Value) ==> Has(tree, k) && KeyAt(tree, tree.rank[k]) == k
+//@   loop 1:
+//@     invariant ItInv(it) && fresh(it) && it.tree == tree && fresh(elements) && elements != nil && len(elements) == Cur(it) + 1 && Cur(it) < tree.size
+//@     invariant forall j :: 0 <= j && j <= Cur(it) && j < tree.size ==> has(elements, KeyAt(tree, j)) && elements[KeyAt(tree, j)] == ValAt(tree, j)
+//@     invariant forall k like argof(tree.Comparator, 0) :: has(elements, k) ==> Has(tree, k) && tree.rank[k] <= Cur(it) && KeyAt(tree, tree.rank[k]) == k
+//@     decreases tree.size - Cur(it)
+
+//@ func Tree.MarshalJSON
+//@   requires Inv(tree)
+//@   modifies nothing
+//@   ensures [C11 C17 C18] result1 == nil && fresh(arr(result0)) && jobj_kind(result0, argof(tree.Comparator, 0), tree.Root.Entries[0].Value) == 3 && jobj_card(result0, argof(tree.Comparator, 0), tree.Root.Entries[0].Value) == tree.size
+//@   ensures [C11] content: forall i :: 0 <= i && i < tree.size ==> jobj_has(result0, KeyAt(tree, i), tree.Root.Entries[0].Value) && jobj_val(result0, KeyAt(tree, i), tree.Root.Entries[0].Value) == ValAt(tree, i)
+//@   ensures [C11] only: forall k like argof(tree.Comparator, 0) :: jobj_has(result0, k, tree.Root.Entries[0].Value) ==> Has(tree, k) && KeyAt(tree, tree.rank[k]) == k
+
+//@ func Tree.FromJSON
+//@   requires Inv(tree)
+//@   modifies tree.Root, tree.size, tree.nd, tree.ix, tree.rank, elems(*)
+//@   modifies each x like tree.Root where x.tr == tree : x.Entries, x.Children, x.Parent, x.tr, x.lvl, x.lo, x.hi, x.ep, x.ci
+//@   ensures [C12 C17] Inv(tree) && tree.Comparator == old(tree.Comparator) && tree.m == old(tree.m) && (result == nil <==> jobj_kind(data, argof(tree.Comparator, 0), tree.Root.Entries[0].Value) >= 2)
+//@   ensures [C12] atomic: result != nil ==> tree.size == old(tree.size) && tree.Root == old(tree.Root) && (forall i :: 0 <= i && i < tree.size ==> KeyAt(tree, i) == old(KeyAt(tree, i)) && ValAt(tree, i) == old(ValAt(tree, i)))
+//@   ensures [C11 C12] loaded-all: jobj_kind(data, argof(tree.Comparator, 0), tree.Root.Entries[0].Value) == 3 ==> (forall k like argof(tree.Comparator, 0) :: jobj_has(data, k, tree.Root.Entries[0].Value) ==> Has(tree, k))
+//@   ensures [C11 C12] loaded-only: jobj_kind(data, argof(tree.Comparator, 0), tree.Root.Entries[0].Value) == 3 ==> (forall i :: 0 <= i && i < tree.size ==> jobj_has(data, KeyAt(tree, i), tree.Root.Entries[0].Value) && ValAt(tree, i) == jobj_val(data, KeyAt(tree, i), tree.Root.Entries[0].Value))
+//@   ensures [C12] null: jobj_kind(data, argof(tree.Comparator, 0), tree.Root.Entries[0].Value) == 2 ==> tree.size == 0
+//@   loop 1:
+//@     invariant Inv(tree) && tree.Comparator == old(tree.Comparator) && tree.m == old(tree.m) && err == nil && jobj_kind(data, argof(tree.Comparator, 0), tree.Root.Entries[0].Value) >= 2
+//@     invariant jobj_kind(data, argof(tree.Comparator, 0), tree.Root.Entries[0].Value) == 3 ==> elements != nil && (forall k like argof(tree.Comparator, 0) :: has(elements, k) <==> jobj_has(data, k, tree.Root.Entries[0].Value)) && (forall k like argof(tree.Comparator, 0) :: has(elements, k) ==> elements[k] == jobj_val(data, k, tree.Root.Entries[0].Value))
+//@     invariant jobj_kind(data, argof(tree.Comparator, 0), tree.Root.Entries[0].Value) == 2 ==> elements == nil && tree.size == 0
+//@     invariant forall k like argof(tree.Comparator, 0) :: visited1[k] ==> Has(tree, k)
+//@     invariant forall i :: 0 <= i && i < tree.size ==> visited1[KeyAt(tree, i)] && has(elements, KeyAt(tree, i)) && ValAt(tree, i) == elements[KeyAt(tree, i)]
+//@     invariant forall x like tree.Root :: fresh(x) ==> x.tr == tree || x.tr == nil
+//@     decreases len(elements) - nvisited1
+
+//@ func Tree.UnmarshalJSON
+//@   requires Inv(tree)
+//@   modifies tree.Root, tree.size, tree.nd, tree.ix, tree.rank, elems(*)
+//@   modifies each x like tree.Root where x.tr == tree : x.Entries, x.Children, x.Parent, x.tr, x.lvl, x.lo, x.hi, x.ep, x.ci
+//@   ensures [C12 C17] Inv(tree) && tree.Comparator == old(tree.Comparator) && (result == nil <==> jobj_kind(bytes, argof(tree.Comparator, 0), tree.Root.Entries[0].Value) >= 2)
+//@   ensures [C12] atomic: result != nil ==> tree.size == old(tree.size) && tree.Root == old(tree.Root) && (forall i :: 0 <= i && i < tree.size ==> KeyAt(tree, i) == old(KeyAt(tree, i)) && ValAt(tree, i) == old(ValAt(tree, i)))
+//@   ensures [C11 C12] loaded-all: jobj_kind(bytes, argof(tree.Comparator, 0), tree.Root.Entries[0].Value) == 3 ==> (forall k like argof(tree.Comparator, 0) :: jobj_has(bytes, k, tree.Root.Entries[0].Value) ==> Has(tree, k))
+//@   ensures [C11 C12] loaded-only: jobj_kind(bytes, argof(tree.Comparator, 0), tree.Root.Entries[0].Value) == 3 ==> (forall i :: 0 <= i && i < tree.size ==> jobj_has(bytes, KeyAt(tree, i), tree.Root.Entries[0].Value) && ValAt(tree, i) == jobj_val(bytes, KeyAt(tree, i), tree.Root.Entries[0].Value))
+//@   ensures [C12] null: jobj_kind(bytes, argof(tree.Comparator, 0), tree.Root.Entries[0].Value) == 2 ==> tree.size == 0
 
 // ---- slice surgery used by delete/rebalance (C01, C07 locally; C17): exactly one entry / child leaves, the rest keep their order ----
 
